@@ -1,7 +1,7 @@
 (* C17 — Malformed packets are rejected by the validity gate, without panic.
    This file contains only statements closed by `exact`, non-vacuity
    Examples and Print Assumptions. *)
-From GB Require Import Base.Prelude Model.Header Spec.EncHeader Proofs.HeaderProofs.
+From GB Require Import Base.Prelude Model.Header Model.Streamer Spec.EncHeader Proofs.HeaderProofs Proofs.StreamProofs Proofs.StreamProofs2.
 Open Scope Z_scope.
 
 (* (a1) the gate accepts exactly the buffers with a full header whose length field equals the buffer length *)
@@ -24,6 +24,19 @@ Theorem C17_accessors_total : forall ev,
   (exists a, ev_length ev = Ok a) /\ (exists a, ev_next_position ev = Ok a).
 Proof. exact accessors_total. Qed.
 Print Assumptions C17_accessors_total.
+
+(* (b) the streamer applies the test to every event before touching it: a rejected packet ends the loop with an
+   error; the state (position, buffered transaction, handler calls, deliveries) is untouched - so no partial
+   transaction is delivered and the resume position stays the last accepted commit boundary (C04) *)
+Theorem C17_gate : forall ffmt tz jsonp verdict mp st ev,
+  is_valid ev = Ok false -> step ffmt tz jsonp verdict mp st ev = Ok (st, Some CInvalid).
+Proof. exact gate_step. Qed.
+Print Assumptions C17_gate.
+
+Theorem C17_gate_decode : forall ffmt tz jsonp mp f tbls ev,
+  is_valid ev = Ok false -> decode ffmt tz jsonp mp f tbls ev = AStop CInvalid.
+Proof. exact gate_decode. Qed.
+Print Assumptions C17_gate_decode.
 
 Example C17_nonvacuous :
   let ev := enc_event {| h_ts := 7; h_type := 16; h_sid := 1; h_next := 120; h_flags := 0 |} [1;2;3;4;5;6;7;8] in
